@@ -78,6 +78,15 @@ progs!(h8 {
     la(y, Dual(d.0 + w)) <-- lb(x, d), e(x, y, w);
     lb(y, Dual(d.0 + w)) <-- la(x, d), e(x, y, w);
 });
+// H11: parallel eqrel, forced collision inside one parallel loop: with two workers the slice [(0,1), (1,5) | (2,3), (2,0)]
+// is split in the middle: one worker links 1 to the new element 5 while the other merges the class of 0 and 1 away
+progs!(h11 {
+    relation s(i32, i32);
+    #[ds(ascent_byods_rels::eqrel)] relation r(i32, i32);
+    relation o(i32, i32);
+    r(x, y) <-- s(x, y);
+    o(x, y) <-- r(x, y);
+});
 // H10: the lattice is read by the third body clause and written by the head: the row just read can be the row updated
 // (self loop) or a row another worker is reading
 progs!(h10 {
@@ -226,7 +235,9 @@ fn main() {
             explore_harness(&mut rep, &prop, &hname, w, klat, cap, &body, &expected);
         }
     }
-    run_h!(&mut rep, &prop, "H6-eqrel", h6, w, klat, cap, |p| { for t in [(0, 1), (0, 2), (3, 4), (3, 1)] { p.s.push(t); } },
+    run_h!(&mut rep, &prop, "H11-eqrel-merge-vs-link", h11, &[2], k, cap, |p| { for t in [(0, 1), (1, 5), (2, 3), (2, 0)] { p.s.push(t); } },
+        |q| { fmt_rel("o", q.o.iter().map(|t| t.clone()).collect::<Vec<_>>()) });
+    run_h!(&mut rep, &prop, "H6-eqrel", h6, w, k, cap, |p| { for t in [(0, 1), (2, 3), (2, 4), (0, 2), (1, 5)] { p.s.push(t); } },
         |q| { fmt_rel("o", q.o.iter().map(|t| t.clone()).collect::<Vec<_>>()) });
     rep.rule = "every execution of the harness with at most k deviations (forks = stolen jobs, preemptions at lock acquisitions, non-default worker slots) for 1, 2 and 3 workers; each execution's relations (row count, distinct tuples, lattice value per key) must equal the serial macro's; non-trivial = execution with at least one fork or preemption".into();
     rep.finish(start)
